@@ -309,6 +309,9 @@ class Run:
         self.gc_freed_blocks = 0
         self.opkinds = []
         self.deleted_kernel_output = False
+        self.orphaned = {}
+        self.orphan_ids = set()
+        self.op_kernel = {}
         self.threaded = plan.get("threads", 1) > 1
         self.inflight = {}  # thread -> logical ids the operation in flight holds references to
         self.sched = None
@@ -394,9 +397,15 @@ class Run:
             held = set()
             if new_output is not None:
                 held = {bid for _, bid in m.logical[new_output]["blocks"]}
-            for b in heap.live_blocks():
-                if b.call == before_ids and b.id not in held:
-                    self.viol(("C13",), "kernel_leak", at, b.size, b.kind)
+            orphans = [b for b in heap.live_blocks() if b.call == before_ids and b.id not in held]
+            if orphans:
+                # one orphan set per kernel could be a workspace the method keeps for reuse; the
+                # same kernel orphaning blocks again is growth, i.e. a leak
+                key = self.op_kernel.get(before_ids)
+                self.orphaned[key] = self.orphaned.get(key, 0) + 1
+                self.orphan_ids.update(b.id for b in orphans)
+                if self.orphaned[key] >= 2:
+                    self.viol(("C13",), "kernel_leak", at, orphans[0].size, orphans[0].kind)
 
     def check_collected(self, at):
         """At an explicit gc operation: every block of an unreachable logical tensor is freed."""
@@ -560,6 +569,7 @@ class Run:
         kernel_ran = False
         th = threading.current_thread()
         th.sim_call = f"op{i}"
+        self.op_kernel[f"op{i}"] = (kind, o.get("kernel"), o.get("operator"))
         tid = getattr(th, "sim_id", -1)
         touched = set()
         for nm in [o.get("src"), o.get("a"), o.get("b"), o.get("name")] + [
@@ -813,7 +823,8 @@ class Run:
             heap.drain()
             self.check("end", None, None)
             self.check_collected("end")
-            left = heap.live_blocks()
+            left = [b for b in heap.live_blocks()
+                    if not (b.id in self.orphan_ids and max(self.orphaned.values(), default=0) < 2)]
             if left:
                 self.viol(("C13",), "blocks_live_after_all_names_deleted", "end",
                           [(b.size, b.kind, b.call) for b in left[:6]])
